@@ -1,0 +1,128 @@
+//! Read-only introspection of the solver state for external verification tooling.
+//!
+//! Only compiled with the off-by-default cargo feature `verif-hooks`. Nothing in here changes the
+//! behaviour of the solver: [`Solver::verif_dump`] copies the clause database, the learnt clauses (with
+//! their recorded antecedents) and the current decision trail into plain data.
+
+use super::{Solver, clause::Clause, variable_map::VariableOrigin};
+use crate::{
+    DependencyProvider, NameId, Requirement, SolvableId, StringId, VersionSetId,
+    internal::{arena::ArenaId, id::VariableId},
+    runtime::AsyncRuntime,
+};
+
+/// A variable of the SAT problem.
+#[derive(Debug, Clone, Copy, PartialEq, Eq, Hash, PartialOrd, Ord)]
+pub enum DumpVar {
+    /// The root solvable.
+    Root,
+    /// A solvable of the provider.
+    Solvable(SolvableId),
+    /// A helper variable of the at-most-one encoding of the package (variable number, package).
+    Helper(u32, NameId),
+}
+
+/// A literal: the variable and whether it occurs positively.
+pub type DumpLit = (DumpVar, bool);
+
+/// What a clause was created for.
+#[derive(Debug, Clone, PartialEq, Eq)]
+pub enum DumpKind {
+    /// (root)
+    InstallRoot,
+    /// (¬parent ∨ candidates of the requirement)
+    Requires(DumpVar, Requirement),
+    /// (¬parent ∨ ¬forbidden) for a constrains entry
+    Constrains(DumpVar, DumpVar, VersionSetId),
+    /// (¬root ∨ ¬other): `other` is not the locked solvable
+    Lock(DumpVar, DumpVar),
+    /// (¬solvable) with the reason
+    Excluded(DumpVar, StringId),
+    /// (¬solvable ∨ ±helper) of the at-most-one encoding
+    ForbidMultiple(DumpVar, NameId),
+    /// A learnt clause and the indices (into `clauses`) of the clauses it was derived from.
+    Learnt(Vec<usize>),
+}
+
+/// One clause of the database.
+#[derive(Debug, Clone, PartialEq, Eq)]
+pub struct DumpClause {
+    /// Why the clause exists.
+    pub kind: DumpKind,
+    /// Its literals.
+    pub literals: Vec<DumpLit>,
+}
+
+/// One entry of the decision trail.
+#[derive(Debug, Clone, PartialEq, Eq)]
+pub struct DumpDecision {
+    /// The assigned variable.
+    pub variable: DumpVar,
+    /// The assigned value.
+    pub value: bool,
+    /// The decision level.
+    pub level: u32,
+    /// Index (into `clauses`) of the clause the assignment was derived from.
+    pub derived_from: usize,
+}
+
+/// A copy of the solver state.
+#[derive(Debug, Clone, Default, PartialEq, Eq)]
+pub struct Dump {
+    /// The clause database in allocation order.
+    pub clauses: Vec<DumpClause>,
+    /// The decision trail in assignment order.
+    pub trail: Vec<DumpDecision>,
+}
+
+impl<D: DependencyProvider, RT: AsyncRuntime> Solver<D, RT> {
+    /// Copies the clause database and the decision trail of the most recent `solve` call.
+    pub fn verif_dump(&self) -> Dump {
+        let state = &self.state;
+        let var = |v: VariableId| match state.variable_map.origin(v) {
+            VariableOrigin::Root => DumpVar::Root,
+            VariableOrigin::Solvable(s) => DumpVar::Solvable(s),
+            VariableOrigin::ForbidMultiple(n) => DumpVar::Helper(v.to_usize() as u32, n),
+        };
+        let mut clauses = Vec::with_capacity(state.clauses.kinds.len());
+        for clause in &state.clauses.kinds {
+            let mut literals = Vec::new();
+            if let Clause::InstallRoot = clause {
+                literals.push((DumpVar::Root, true));
+            } else {
+                clause.visit_literals(
+                    &state.learnt_clauses,
+                    &state.requirement_to_sorted_candidates,
+                    |lit| literals.push((var(lit.variable()), !lit.negate())),
+                );
+            }
+            let kind = match *clause {
+                Clause::InstallRoot => DumpKind::InstallRoot,
+                Clause::Requires(p, r) => DumpKind::Requires(var(p), r),
+                Clause::Constrains(p, f, vs) => DumpKind::Constrains(var(p), var(f), vs),
+                Clause::Lock(l, o) => DumpKind::Lock(var(l), var(o)),
+                Clause::Excluded(s, r) => DumpKind::Excluded(var(s), r),
+                Clause::ForbidMultipleInstances(s, _, n) => DumpKind::ForbidMultiple(var(s), n),
+                Clause::Learnt(id) => DumpKind::Learnt(
+                    state
+                        .learnt_why
+                        .get(id)
+                        .map(|why| why.iter().map(|c| c.to_usize()).collect())
+                        .unwrap_or_default(),
+                ),
+            };
+            clauses.push(DumpClause { kind, literals });
+        }
+        let trail = state
+            .decision_tracker
+            .stack()
+            .map(|d| DumpDecision {
+                variable: var(d.variable),
+                value: d.value,
+                level: state.decision_tracker.level(d.variable),
+                derived_from: d.derived_from.to_usize(),
+            })
+            .collect();
+        Dump { clauses, trail }
+    }
+}
